@@ -260,6 +260,14 @@ func drawDialectModel(t *rapid.T, idx int) XDialect {
 				usedValues[e.Name][v] = true
 				e.Entries = append(e.Entries, XEntry{Name: name, Value: v, Text: enumValueText(t, v, "val"), Desc: drawDesc(t, "entdesc")})
 			}
+			// a bitmask enum may name "no flag at all" too (FENCE_TYPE_ALL = 0, ..._NONE = 0 in the official definitions)
+			if e.Bitmask && !extend && len(e.Entries) >= 1 && rapid.IntRange(0, 2).Draw(t, "zero_entry") == 0 {
+				name := e.Name + "_NONE"
+				if !usedValues[e.Name][0] && entryNames.take(name) {
+					usedValues[e.Name][0] = true
+					e.Entries = append(e.Entries, XEntry{Name: name, Value: 0, Text: rapid.SampledFrom([]string{"0", "0x0", "0b0"}).Draw(t, "zero_text")})
+				}
+			}
 			// a bitmask enum may also name a combination of its own flags (e.g. READ_WRITE = READ | WRITE)
 			if e.Bitmask && !extend && len(e.Entries) >= 2 && rapid.IntRange(0, 3).Draw(t, "combo_entry") == 0 {
 				v := e.Entries[0].Value | e.Entries[1].Value
